@@ -448,22 +448,116 @@ func init() {
 		return Val{S: res, T: resultType(in, c)}, nil
 	})
 
-	// ---------------- strings / strconv: lengths and ranges only ----------------
-	regLib("strings.TrimSpace", func(x *FnExec, fr *frame, n *node, in ssa.Instruction, c *ssa.CallCommon, args []Val, reach, hint string) (Val, error) {
-		r := x.havocVal(hint, resultType(in, c), reach)
-		x.q.assert(x.cmp("<=", "(strlen "+r.S+")", "(strlen "+args[0].S+")", tInt))
-		return r, nil
+	// ---------------- strings / strconv: deterministic spec functions with length/range facts ----------------
+	strFn := func(goName, spec string, facts func(x *FnExec, r string, args []Val) []string) {
+		regLib(goName, func(x *FnExec, fr *frame, n *node, in ssa.Instruction, c *ssa.CallCommon, args []Val, reach, hint string) (Val, error) {
+			var as, ss []string
+			for i, a := range args {
+				if _, isSig := c.Args[i].Type().Underlying().(*types.Signature); isSig {
+					continue // function-valued argument: part of the spec name
+				}
+				as = append(as, x.scalar(a))
+				ss = append(ss, x.q.sortOf(a.T))
+			}
+			name := "pf_" + spec
+			for i, a := range args {
+				if _, isSig := c.Args[i].Type().Underlying().(*types.Signature); isSig {
+					if a.Fn != nil {
+						name += "_" + mangle(a.Fn.Name())
+					} else {
+						return x.havocVal(hint, resultType(in, c), reach), nil
+					}
+				}
+			}
+			rt := resultType(in, c)
+			fn := x.q.declareFun(name, ss, x.q.sortOf(rt))
+			term := x.q.define(hint, x.q.sortOf(rt), fmt.Sprintf("(%s %s)", fn, strings.Join(as, " ")))
+			x.assumeValid("true", term, rt)
+			if facts != nil {
+				for _, f := range facts(x, term, args) {
+					x.q.assert(f)
+				}
+			}
+			return Val{S: term, T: rt}, nil
+		})
+		specLibFuncs[spec] = func(x *FnExec, c *evalCtx, args []Val) (Val, error) {
+			var as, ss []string
+			for _, a := range args {
+				as = append(as, a.S)
+				ss = append(ss, x.sortOfVal(a))
+			}
+			// result sort: strings for string functions, int for index functions
+			rs, rt := "Str", types.Type(types.Typ[types.String])
+			if strings.HasPrefix(spec, "index") || strings.HasPrefix(spec, "lastIndex") {
+				rs, rt = x.q.intSort(), tInt
+			}
+			fn := x.q.declareFun("pf_"+spec, ss, rs)
+			return Val{S: fmt.Sprintf("(%s %s)", fn, strings.Join(as, " ")), T: rt}, nil
+		}
+	}
+	strFn("strings.TrimSpace", "trimSpace", func(x *FnExec, r string, args []Val) []string {
+		return []string{x.cmp("<=", "(strlen "+r+")", "(strlen "+args[0].S+")", tInt)}
 	})
-	for _, nm := range []string{"strings.ToUpper", "strings.ToLower", "strings.Trim", "strings.TrimPrefix", "strings.TrimSuffix", "strings.TrimLeft", "strings.TrimRight", "strings.Replace", "strings.ReplaceAll", "strings.Join", "strings.Title"} {
-		regLib(nm, pureStr)
+	for goName, spec := range map[string]string{"strings.ToUpper": "toUpper", "strings.ToLower": "toLower", "strings.Trim": "trim", "strings.TrimPrefix": "trimPrefix", "strings.TrimSuffix": "trimSuffix",
+		"strings.TrimLeft": "trimLeft", "strings.TrimRight": "trimRight", "strings.ReplaceAll": "replaceAll", "strings.Title": "title"} {
+		strFn(goName, spec, nil)
 	}
-	idx := func(x *FnExec, fr *frame, n *node, in ssa.Instruction, c *ssa.CallCommon, args []Val, reach, hint string) (Val, error) {
-		r := x.havocVal(hint, resultType(in, c), reach)
-		x.q.assert(and(x.cmp(">=", r.S, x.ilit(-1), tInt), x.cmp("<", r.S, ite(x.cmp(">", "(strlen "+args[0].S+")", x.ilit(0), tInt), "(strlen "+args[0].S+")", x.ilit(0)), tInt)))
-		return r, nil
+	regLib("strings.Replace", pureStr)
+	regLib("strings.Join", pureStr)
+	idxFacts := func(x *FnExec, r string, args []Val) []string {
+		return []string{and(x.cmp(">=", r, x.ilit(-1), tInt), x.cmp("<", r, ite(x.cmp(">", "(strlen "+args[0].S+")", x.ilit(0), tInt), "(strlen "+args[0].S+")", x.ilit(0)), tInt))}
 	}
-	for _, nm := range []string{"strings.IndexFunc", "strings.Index", "strings.IndexByte", "strings.IndexRune", "strings.IndexAny", "strings.LastIndex", "strings.LastIndexByte", "strings.LastIndexFunc", "strings.LastIndexAny"} {
-		regLib(nm, idx)
+	for goName, spec := range map[string]string{"strings.IndexFunc": "indexFunc", "strings.Index": "index", "strings.IndexByte": "indexByte", "strings.IndexRune": "indexRune", "strings.IndexAny": "indexAny",
+		"strings.LastIndex": "lastIndex", "strings.LastIndexByte": "lastIndexByte", "strings.LastIndexFunc": "lastIndexFunc", "strings.LastIndexAny": "lastIndexAny"} {
+		strFn(goName, spec, idxFacts)
+	}
+	// strconv: (value, error) pairs as deterministic functions of the input string
+	conv := func(goName, spec string, valSort func(x *FnExec) string) {
+		regLib(goName, func(x *FnExec, fr *frame, n *node, in ssa.Instruction, c *ssa.CallCommon, args []Val, reach, hint string) (Val, error) {
+			rt := resultType(in, c).(*types.Tuple)
+			vs := x.q.sortOf(rt.At(0).Type())
+			okF := x.q.declareFun("pf_"+spec+"OK", []string{"Str"}, "Bool")
+			valF := x.q.declareFun("pf_"+spec+"Val", []string{"Str"}, vs)
+			res := x.havocVal(hint, rt, reach)
+			ok := fmt.Sprintf("(%s %s)", okF, args[0].S)
+			x.q.assert(eq(eq(res.Tuple[1].S, "inil"), ok))
+			x.q.assert(implies(ok, eq(res.Tuple[0].S, fmt.Sprintf("(%s %s)", valF, args[0].S))))
+			// on error the documented zero / saturated value is returned: for bool and float parse errors it is the zero value
+			if spec == "parseBool" {
+				x.q.assert(implies(not(ok), eq(res.Tuple[0].S, "false")))
+			}
+			return res, nil
+		})
+		specLibFuncs[spec+"OK"] = func(x *FnExec, c *evalCtx, args []Val) (Val, error) {
+			fn := x.q.declareFun("pf_"+spec+"OK", []string{"Str"}, "Bool")
+			return Val{S: fmt.Sprintf("(%s %s)", fn, args[0].S), T: types.Typ[types.Bool]}, nil
+		}
+		specLibFuncs[spec+"Val"] = func(x *FnExec, c *evalCtx, args []Val) (Val, error) {
+			vs := valSort(x)
+			fn := x.q.declareFun("pf_"+spec+"Val", []string{"Str"}, vs)
+			var t types.Type = tInt
+			switch vs {
+			case "Real":
+				t = types.Typ[types.Float64]
+			case "Bool":
+				t = types.Typ[types.Bool]
+			}
+			return Val{S: fmt.Sprintf("(%s %s)", fn, args[0].S), T: t}, nil
+		}
+	}
+	conv("strconv.ParseFloat", "parseFloat", func(x *FnExec) string { return "Real" })
+	conv("strconv.ParseBool", "parseBool", func(x *FnExec) string { return "Bool" })
+	conv("strconv.Atoi", "atoi", func(x *FnExec) string { return x.q.intSort() })
+	specLibFuncs["indexLetter"] = func(x *FnExec, c *evalCtx, args []Val) (Val, error) {
+		fn := x.q.declareFun("pf_indexFunc_IsLetter", []string{"Str"}, x.q.intSort())
+		return Val{S: fmt.Sprintf("(%s %s)", fn, args[0].S), T: tInt}, nil
+	}
+	specLibFuncs["substr"] = func(x *FnExec, c *evalCtx, args []Val) (Val, error) {
+		if len(args) != 3 {
+			return Val{}, fmt.Errorf("substr(s, lo, hi)")
+		}
+		lo, hi := x.fixLit(args[1]), x.fixLit(args[2])
+		return Val{S: fmt.Sprintf("(str_sub %s %s %s)", args[0].S, lo.S, hi.S), T: types.Typ[types.String]}, nil
 	}
 	regLib("strings.Split", func(x *FnExec, fr *frame, n *node, in ssa.Instruction, c *ssa.CallCommon, args []Val, reach, hint string) (Val, error) {
 		r := x.havocVal(hint, resultType(in, c), reach)
